@@ -975,3 +975,141 @@ package variants
 //@   ensures[C06] value1.typ != Null && value2.typ != Null && value1.typ != Array && value1.typ != String ==> err != nil
 //@   assigns nothing
 //@   nopanic
+
+// ---------------------------------------------------------------------------------------------
+// What the calculator assumes of a variant operations manager (both managers are verified against it).
+// A supported operand: a valid variant; arrays are flat arrays of supported scalars; an Object payload is comparable.
+//@ pred valOK(v *Variant) = v != nil && vinv(v) && elemsOK(v) && (v.typ == Object ==> !isslice(v.value))
+// GENERATED by /verif/tools/gen_calculator_contracts.py
+//@ interface IVariantOperations.Add(self, value1, value2)
+//@   requires self != nil
+//@   ensures[C03,C19] (result != nil) != (err != nil)
+//@   ensures[C03] err == nil ==> vinv(result)
+//@   assigns nothing
+//@   nopanic
+//@ interface IVariantOperations.Sub(self, value1, value2)
+//@   requires self != nil
+//@   ensures[C03,C19] (result != nil) != (err != nil)
+//@   ensures[C03] err == nil ==> vinv(result)
+//@   assigns nothing
+//@   nopanic
+//@ interface IVariantOperations.Mul(self, value1, value2)
+//@   requires self != nil
+//@   ensures[C03,C19] (result != nil) != (err != nil)
+//@   ensures[C03] err == nil ==> vinv(result)
+//@   assigns nothing
+//@   nopanic
+//@ interface IVariantOperations.Div(self, value1, value2)
+//@   requires self != nil
+//@   ensures[C03,C19] (result != nil) != (err != nil)
+//@   ensures[C03] err == nil ==> vinv(result)
+//@   assigns nothing
+//@   nopanic
+//@ interface IVariantOperations.Mod(self, value1, value2)
+//@   requires self != nil
+//@   ensures[C03,C19] (result != nil) != (err != nil)
+//@   ensures[C03] err == nil ==> vinv(result)
+//@   assigns nothing
+//@   nopanic
+//@ interface IVariantOperations.Pow(self, value1, value2)
+//@   requires self != nil
+//@   ensures[C03,C19] (result != nil) != (err != nil)
+//@   ensures[C03] err == nil ==> vinv(result)
+//@   assigns nothing
+//@   nopanic
+//@ interface IVariantOperations.And(self, value1, value2)
+//@   requires self != nil
+//@   ensures[C03,C19] (result != nil) != (err != nil)
+//@   ensures[C03] err == nil ==> vinv(result)
+//@   assigns nothing
+//@   nopanic
+//@ interface IVariantOperations.Or(self, value1, value2)
+//@   requires self != nil
+//@   ensures[C03,C19] (result != nil) != (err != nil)
+//@   ensures[C03] err == nil ==> vinv(result)
+//@   assigns nothing
+//@   nopanic
+//@ interface IVariantOperations.Xor(self, value1, value2)
+//@   requires self != nil
+//@   ensures[C03,C19] (result != nil) != (err != nil)
+//@   ensures[C03] err == nil ==> vinv(result)
+//@   assigns nothing
+//@   nopanic
+//@ interface IVariantOperations.Lsh(self, value1, value2)
+//@   requires self != nil
+//@   ensures[C03,C19] (result != nil) != (err != nil)
+//@   ensures[C03] err == nil ==> vinv(result)
+//@   assigns nothing
+//@   nopanic
+//@ interface IVariantOperations.Rsh(self, value1, value2)
+//@   requires self != nil
+//@   ensures[C03,C19] (result != nil) != (err != nil)
+//@   ensures[C03] err == nil ==> vinv(result)
+//@   assigns nothing
+//@   nopanic
+//@ interface IVariantOperations.Equal(self, value1, value2)
+//@   requires self != nil
+//@   ensures[C03,C19] (result != nil) != (err != nil)
+//@   ensures[C03] err == nil ==> vinv(result)
+//@   assigns nothing
+//@   nopanic
+//@ interface IVariantOperations.NotEqual(self, value1, value2)
+//@   requires self != nil
+//@   ensures[C03,C19] (result != nil) != (err != nil)
+//@   ensures[C03] err == nil ==> vinv(result)
+//@   assigns nothing
+//@   nopanic
+//@ interface IVariantOperations.More(self, value1, value2)
+//@   requires self != nil
+//@   ensures[C03,C19] (result != nil) != (err != nil)
+//@   ensures[C03] err == nil ==> vinv(result)
+//@   assigns nothing
+//@   nopanic
+//@ interface IVariantOperations.Less(self, value1, value2)
+//@   requires self != nil
+//@   ensures[C03,C19] (result != nil) != (err != nil)
+//@   ensures[C03] err == nil ==> vinv(result)
+//@   assigns nothing
+//@   nopanic
+//@ interface IVariantOperations.MoreEqual(self, value1, value2)
+//@   requires self != nil
+//@   ensures[C03,C19] (result != nil) != (err != nil)
+//@   ensures[C03] err == nil ==> vinv(result)
+//@   assigns nothing
+//@   nopanic
+//@ interface IVariantOperations.LessEqual(self, value1, value2)
+//@   requires self != nil
+//@   ensures[C03,C19] (result != nil) != (err != nil)
+//@   ensures[C03] err == nil ==> vinv(result)
+//@   assigns nothing
+//@   nopanic
+//@ interface IVariantOperations.In(self, value1, value2)
+//@   requires self != nil
+//@   ensures[C03,C19] (result != nil) != (err != nil)
+//@   ensures[C03] err == nil ==> vinv(result)
+//@   assigns nothing
+//@   nopanic
+//@ interface IVariantOperations.GetElement(self, value1, value2)
+//@   requires self != nil
+//@   ensures[C03,C19] (result != nil) != (err != nil)
+//@   ensures[C03] err == nil ==> vinv(result)
+//@   assigns nothing
+//@   nopanic
+//@ interface IVariantOperations.Not(self, value)
+//@   requires self != nil
+//@   ensures[C03,C19] (result != nil) != (err != nil)
+//@   ensures[C03] err == nil ==> vinv(result)
+//@   assigns nothing
+//@   nopanic
+//@ interface IVariantOperations.Negative(self, value)
+//@   requires self != nil
+//@   ensures[C03,C19] (result != nil) != (err != nil)
+//@   ensures[C03] err == nil ==> vinv(result)
+//@   assigns nothing
+//@   nopanic
+//@ interface IVariantOperations.Convert(self, value, newType)
+//@   requires self != nil
+//@   ensures[C03,C19] (result != nil) != (err != nil)
+//@   ensures[C03] err == nil ==> vinv(result) && (newType != Object ==> result.typ == newType)
+//@   assigns nothing
+//@   nopanic
